@@ -5,6 +5,7 @@ import ast
 
 from engine.cfg import CFG, normalise_compare, atoms
 from engine.model import src, stmt_key, AnalysisError
+from engine import pat
 from engine.util import where
 
 RULES = {
@@ -96,8 +97,13 @@ def run(model, rep, tier):
 
     # ---------------------------------------------------------------- R-06.2
     fc = model.func("dns.name.Name.fullcompare")
+    # locals are named by role (shape of their definition / use), so the rules below do not depend on how the code spells them
+    fcn, _ = pat.canon(fc.node, [
+        "__sabs = self.is_absolute()", "__oabs = other.is_absolute()", "__l1 = len(self.labels)", "__l2 = len(other.labels)", "__ldiff = __l1 - __l2",
+        "if __ldiff < 0:\n    __l = __l1\nelse:\n    __l = __l2", "__order = 0\n__nlabels = 0\n__namereln = NameRelation.NONE",
+        "while __l > 0:\n    ...\n    if __label1 < __label2:\n        ...\n    elif __label1 > __label2:\n        ...\n    ..."])
     defs = {}
-    for nd in ast.walk(fc.node):
+    for nd in ast.walk(fcn):
         if isinstance(nd, ast.Assign) and isinstance(nd.targets[0], ast.Name) and nd.targets[0].id in ("label1", "label2"):
             defs.setdefault(nd.targets[0].id, []).append(nd.value)
     if set(defs) != {"label1", "label2"} or any(len(v) != 1 for v in defs.values()):
@@ -124,10 +130,11 @@ def run(model, rep, tier):
               f"__hash__ does not iterate `label.{norm}()` for every label: equal names (case-insensitively) can hash differently", stmt="hash-normaliser")
     if okk:
         acc = [x for x in ast.walk(fors[1]) if isinstance(x, (ast.AugAssign, ast.Assign))]
-        uses_only_c = all(set(n.id for n in ast.walk(a.value) if isinstance(n, ast.Name)) <= {"h", src(fors[1].target)} for a in acc)
+        accs = {src(a.target) if isinstance(a, ast.AugAssign) else src(a.targets[0]) for a in acc}
+        uses_only_c = len(accs) == 1 and all(set(n.id for n in ast.walk(a.value) if isinstance(n, ast.Name)) <= accs | {src(fors[1].target)} for a in acc)
         rep.check(uses_only_c and bool(acc), "R-06.2", h.qualname, where(h, h.node), "the accumulator depends only on the folded octets", "hash mixes in something other than the folded octets", stmt="hash-inputs")
     cz = model.func("dns.name.Name.canonicalize")
-    rep.check(f"x.{norm}() for x in self.labels" in src(cz.node), "R-06.2", cz.qualname, where(cz, cz.node), f"canonicalize() uses .{norm}()", "canonicalize() uses a different normaliser than comparison", stmt="canon-normaliser")
+    rep.check(pat.has_expr(cz.node, f"Name([__x.{norm}() for __x in self.labels])") if (norm or "").isidentifier() else False, "R-06.2", cz.qualname, where(cz, cz.node), f"canonicalize() uses .{norm}()", "canonicalize() uses a different normaliser than comparison", stmt="canon-normaliser")
     tw = model.func("dns.name.Name.to_wire")
     rep.check(f".{norm}()" in src(tw.node) and "canonicalize" in src(tw.node), "R-06.2", tw.qualname, where(tw, tw.node), f"to_wire(canonicalize=True) folds with .{norm}()",
               "to_wire's canonical form does not use the comparison normaliser", stmt="wire-normaliser")
@@ -136,23 +143,23 @@ def run(model, rep, tier):
               "to_digestable asks for the canonical (folded) wire form", "to_digestable no longer asks for the canonical form", stmt="digestable")
 
     # ---------------------------------------------------------------- R-06.3
-    cfg = CFG(fc.node, implicit_exc=False)
+    cfg = CFG(fcn, implicit_exc=False)
     # relative/absolute arm
     okk = False
-    for nd in ast.walk(fc.node):
+    for nd in ast.walk(fcn):
         if isinstance(nd, ast.If) and " ".join(src(nd.test).split()) == "sabs != oabs":
             inner = [x for x in nd.body if isinstance(x, ast.If)]
             if inner and src(inner[0].test) == "sabs":
                 t_ret = [src(s.value) for s in inner[0].body if isinstance(s, ast.Return)]
                 f_ret = [src(s.value) for s in inner[0].orelse if isinstance(s, ast.Return)]
                 okk = t_ret == ["(NameRelation.NONE, 1, 0)"] and f_ret == ["(NameRelation.NONE, -1, 0)"]
-    sd = [src(n.value) for n in ast.walk(fc.node) if isinstance(n, ast.Assign) and src(n.targets[0]) == "sabs"]
-    od = [src(n.value) for n in ast.walk(fc.node) if isinstance(n, ast.Assign) and src(n.targets[0]) == "oabs"]
+    sd = [src(n.value) for n in ast.walk(fcn) if isinstance(n, ast.Assign) and src(n.targets[0]) == "sabs"]
+    od = [src(n.value) for n in ast.walk(fcn) if isinstance(n, ast.Assign) and src(n.targets[0]) == "oabs"]
     rep.check(okk and sd == ["self.is_absolute()"] and od == ["other.is_absolute()"], "R-06.3", fc.qualname, where(fc, fc.node),
               "mixed relativity: (NONE, +1, 0) when self is absolute else (NONE, -1, 0)", "relative names no longer sort before absolute names (sign or operands of the relativity arm changed)", stmt="relativity-arm")
     # mirrored arms
     arms = []
-    for nd in ast.walk(fc.node):
+    for nd in ast.walk(fcn):
         if isinstance(nd, ast.If) and isinstance(nd.test, ast.Compare) and {src(nd.test.left), src(nd.test.comparators[0])} == {"label1", "label2"}:
             arms.append(nd)
     found = {}
@@ -173,18 +180,18 @@ def run(model, rep, tier):
                       f"`label1 {op} label2` -> order {want}, COMMONANCESTOR iff nlabels > 0", f"`label1 {op} label2` arm gives order {orders}, returns {rets}, common-ancestor handling {anc}",
                       stmt=f"arm {op}")
     # scan direction and bookkeeping
-    loop = [n for n in ast.walk(fc.node) if isinstance(n, ast.While)]
+    loop = [n for n in ast.walk(fcn) if isinstance(n, ast.While)]
     body = [stmt_key(s) for s in loop[0].body] if loop else []
     rep.check(bool(loop) and " ".join(src(loop[0].test).split()) == "l > 0" and "l -= 1" in body and "l1 -= 1" in body and "l2 -= 1" in body and "nlabels += 1" in body,
               "R-06.3", fc.qualname, where(fc, fc.node), "labels are compared right-to-left (both indices decrease), one common label counted per iteration",
               "scan direction / common-label counting changed", stmt="scan")
-    inits = {src(n.targets[0]): src(n.value) for n in fc.node.body if isinstance(n, ast.Assign)}
+    inits = {src(n.targets[0]): src(n.value) for n in fcn.body if isinstance(n, ast.Assign)}
     rep.check(inits.get("l1") == "len(self.labels)" and inits.get("l2") == "len(other.labels)" and inits.get("ldiff") == "l1 - l2", "R-06.3", fc.qualname, where(fc, fc.node),
               "ldiff = len(self) - len(other)", f"length difference computed as {inits.get('ldiff')} from {inits.get('l1')}/{inits.get('l2')}", stmt="ldiff")
-    lsel = [n for n in fc.node.body if isinstance(n, ast.If) and " ".join(src(n.test).split()) == "ldiff < 0"]
+    lsel = [n for n in fcn.body if isinstance(n, ast.If) and " ".join(src(n.test).split()) == "ldiff < 0"]
     okk = bool(lsel) and [stmt_key(s) for s in lsel[0].body] == ["l = l1"] and [stmt_key(s) for s in lsel[0].orelse] == ["l = l2"]
     rep.check(okk, "R-06.3", fc.qualname, where(fc, fc.node), "iterates over min(len) labels", "number of compared labels is no longer the shorter length", stmt="min-len")
-    tail = [n for n in fc.node.body if isinstance(n, ast.If) and " ".join(src(n.test).split()) == "ldiff < 0" and n is not (lsel[0] if lsel else None)]
+    tail = [n for n in fcn.body if isinstance(n, ast.If) and " ".join(src(n.test).split()) == "ldiff < 0" and n is not (lsel[0] if lsel else None)]
     okk = False
     if tail:
         t = tail[0]
@@ -193,13 +200,13 @@ def run(model, rep, tier):
         okk = a == ["namereln = NameRelation.SUPERDOMAIN"] and el is not None and " ".join(src(el.test).split()) == "ldiff > 0" and \
             [stmt_key(s) for s in el.body] == ["namereln = NameRelation.SUBDOMAIN"] and [stmt_key(s) for s in el.orelse] == ["namereln = NameRelation.EQUAL"]
     rep.check(okk, "R-06.3", fc.qualname, where(fc, fc.node), "shorter = SUPERDOMAIN, longer = SUBDOMAIN, same length = EQUAL", "relation derived from the length difference changed", stmt="relation")
-    tb = [stmt_key(n) for n in fc.node.body if isinstance(n, ast.Assign) and src(n.targets[0]) == "order"]
+    tb = [stmt_key(n) for n in fcn.body if isinstance(n, ast.Assign) and src(n.targets[0]) == "order"]
     rep.check("order = ldiff" in tb, "R-06.3", fc.qualname, where(fc, fc.node), "tie-break: order = length difference", "length tie-break no longer has the sign of len(self) - len(other)", stmt="tie-break")
     for qn, rel in (("dns.name.Name.is_subdomain", "SUBDOMAIN"), ("dns.name.Name.is_superdomain", "SUPERDOMAIN")):
         f = model.func(qn)
         tests = [n for n in ast.walk(f.node) if isinstance(n, ast.If)]
-        okk = len(tests) == 1 and normalise_compare(tests[0].test)[0] == "or" and set(atoms(normalise_compare(tests[0].test))) == {("nr", "==", f"NameRelation.{rel}"), ("nr", "==", "NameRelation.EQUAL")} \
-            and [src(s.value) for s in tests[0].body if isinstance(s, ast.Return)] == ["True"] and "nr, _, _ = self.fullcompare(other)" in src(f.node) \
+        okk = len(tests) == 1 and normalise_compare(tests[0].test)[0] == "or" and pat.has(f.node, "(__nr, __a, __b) = self.fullcompare(other)", (epr := pat.Env())) and set(atoms(normalise_compare(tests[0].test))) == {(epr["__nr"], "==", f"NameRelation.{rel}"), (epr["__nr"], "==", "NameRelation.EQUAL")} \
+            and [src(s.value) for s in tests[0].body if isinstance(s, ast.Return)] == ["True"] \
             and [src(s.value) for s in f.node.body if isinstance(s, ast.Return)] == ["False"]
         rep.check(okk, "R-06.3", qn, where(f, f.node), f"accepts exactly {{{rel}, EQUAL}} of self.fullcompare(other)", f"does not accept exactly {{{rel}, EQUAL}}", stmt="predicate")
 
@@ -218,7 +225,8 @@ def run(model, rep, tier):
               "choose_relativity dispatches on origin, then relativize", "choose_relativity dispatch changed", stmt="choose")
     cc = model.func("dns.name.Name.concatenate")
     t = " ".join(src(cc.node).split())
-    rep.check("if self.is_absolute() and len(other) > 0: raise AbsoluteConcatenation" in t and "labels.extend(list(other.labels))" in t, "R-06.4", cc.qualname, where(cc, cc.node),
+    ecc = pat.Env()
+    rep.check("if self.is_absolute() and len(other) > 0: raise AbsoluteConcatenation" in t and pat.has(cc.node, "__labels = list(self.labels)\n__labels.extend(list(other.labels))\nreturn Name(__labels)", ecc), "R-06.4", cc.qualname, where(cc, cc.node),
               "concatenate refuses to extend an absolute name and appends other's labels", "concatenate guard/append changed", stmt="concatenate")
     pa = model.func("dns.name.Name.parent")
     rep.check("return Name(self.labels[1:])" in src(pa.node) and "raise NoParent" in src(pa.node), "R-06.4", pa.qualname, where(pa, pa.node), "parent drops the leftmost label; root/empty have none",
